@@ -69,7 +69,8 @@ def qbytes_int8pack_mm(activations: torch.Tensor, weights: torch.Tensor, output_
         in_features = activations.shape[-1]
         out_features = weights.shape[0]
         output_shape = activations.shape[:-1] + (out_features,)
-        out_data = torch._weight_int8pack_mm(activations.reshape(-1, in_features), weights, output_scales)
+        # (the flattened activations must be contiguous on the last dimension as well)
+        out_data = torch._weight_int8pack_mm(activations.reshape(-1, in_features).contiguous(), weights, output_scales)
         return out_data.view(output_shape)
 
 
